@@ -4,7 +4,8 @@ from rv.oracle import graphdefs as D
 from rv.oracle.sim import Net
 
 RULE = (
-    "random circuits (chains, trees, diamonds, wide fan-out, multi-component, blackbox pins as "
+    "random circuits (chains, trees, diamonds, wide fan-out, multi-component, star = one hub net with 2..70 sink loads and "
+    "no / branch-to-branch / through / below reconvergence, large sizes (deep chains, 17..40-input gates, 66..90 gates, hubs), blackbox pins as "
     "sources/sinks, back edges for cyclic variants); every listed query is compared with an own-DFS "
     "definition on the raw adjacency for single nodes and random node lists; non-trivial = >=4 nodes "
     "and >=3 edges; distinct = canonical (sorted) node/edge lists + query arguments"
@@ -38,6 +39,8 @@ def gen(rng, ctx):
         from rv.gen import libnets
 
         return {"lib": libnets.pick(rng, ctx.tier) if ctx.gen_index else ["c17", "s27", "c432", "mux_4"][ctx.index % 4], "seed": rng.getrandbits(32), "k": rng.randint(1, 3)}
+    if rng.random() < 0.02:
+        return gen_star(rng)
     ni = rng.randint(1, 5 if not big else 7)
     ng = rng.randint(1, 9 if not big else 16)
     cd = G.rand_circuit(rng, ni, ng, max_fanin=5, ensure_loaded=rng.random() < 0.6, p_const=0.2)
@@ -59,6 +62,45 @@ def gen(rng, ctx):
         plain = [n for n in nodes if "." not in n]
         edit = rng.choice([["relabel", rng.choice(plain)], ["add_node", rng.choice(plain)], ["remove", rng.choice(plain)], ["connect", rng.choice(plain), rng.choice(plain)], ["rewire", rng.getrandbits(30)], ["rewire", rng.getrandbits(30)]])
     return {"c": cd, "kind": kind, "lists": lists, "singles": singles, "k": rng.randint(1, 4), "via": rng.choice(["graph", "sparse", "api"]), "edit": edit}
+
+
+def gen_star(rng):
+    """One hub net with 2..70 loads that are (mostly) sinks; reconvergence is absent, goes through a common
+    successor, or is a wire from one load of the hub into another load of the hub."""
+    nb = rng.choice([rng.randint(2, 15), 16, 17, 18, rng.randint(17, 40), rng.randint(41, 70)])
+    cd = G.new_cdict("star")
+    cd["nodes"].append(["h", "input", False])
+    others = [f"p{j}" for j in range(rng.randint(1, 3))]
+    for o in others:
+        cd["nodes"].append([o, "input", False])
+    branches = []
+    for j in range(nb):
+        t = rng.choice(G.GATESN)
+        b = f"b{j}"
+        cd["nodes"].append([b, t, True])
+        cd["edges"].append(["h", b])
+        cd["edges"].append([rng.choice(others), b])
+        branches.append(b)
+    mode = rng.choice(["none", "branch_to_branch", "branch_to_branch", "through", "below"])
+    if mode == "branch_to_branch":
+        for _ in range(rng.randint(1, 2)):
+            a, b = rng.sample(branches, 2)
+            if [a, b] not in cd["edges"] and [b, a] not in cd["edges"]:
+                cd["edges"].append([a, b])
+    elif mode == "through":
+        a, b = rng.sample(branches, 2)
+        cd["nodes"].append(["x", "and", True])
+        cd["edges"] += [[a, "x"], [b, "x"]]
+    elif mode == "below":
+        a = rng.choice(branches)
+        cd["nodes"] += [["y0", "not", False], ["y1", "buf", False], ["y2", "or", True]]
+        cd["edges"] += [[a, "y0"], [a, "y1"], ["y0", "y2"], ["y1", "y2"]]
+    loaded = {u for u, _ in cd["edges"]}
+    cd["nodes"] = [[n, t, o or n not in loaded] for n, t, o in cd["nodes"]]
+    if rng.random() < 0.3:
+        cd = G.shuffle_nodes(rng, cd)
+    nodes = [n for n, _, _ in cd["nodes"]]
+    return {"c": cd, "kind": "star", "star": mode, "lists": [rng.sample(nodes, min(3, len(nodes)))], "singles": ["h"] + rng.sample(nodes, 2), "k": rng.randint(1, 2), "via": rng.choice(["graph", "api"]), "edit": None}
 
 
 def check(case, ctx):
@@ -131,6 +173,8 @@ def queries(case, ctx, c, singles, lists, phase=""):
         ctx.trivial()
     if not phase:
         ctx.count(f"class:{case['kind']}")
+        if case.get("star"):
+            ctx.count(f"star:{case['star']}")
     cyc = D.has_cycle(succs)
     viol = ctx.violation
 
@@ -260,5 +304,5 @@ def queries(case, ctx, c, singles, lists, phase=""):
 
 
 def gates(counters, table, tier):
-    need = ["requery_after:rewire", "requery_after:relabel", "requery_after:connect", "class:dag", "class:dag+bb", "class:cyclic", "cmp:levelize", "cmp:kcuts", "reconv:nonempty", "reconv:empty", "cmp:depth_rejects_cyclic", "cmp:fanout_depthL", "cmp:fanin_depth1", "kcuts:nontrivial_sets"]
+    need = ["requery_after:rewire", "requery_after:relabel", "requery_after:connect", "class:dag", "class:dag+bb", "class:cyclic", "cmp:levelize", "cmp:kcuts", "reconv:nonempty", "reconv:empty", "cmp:depth_rejects_cyclic", "cmp:fanout_depthL", "cmp:fanin_depth1", "kcuts:nontrivial_sets", "star:branch_to_branch", "star:none", "star:through"]
     return [f"class {k} never observed" for k in need if counters.get(k, 0) < 5]
